@@ -366,7 +366,7 @@ Proof.
       rewrite remove_file_head. intros H; inversion H; subst. left. repeat split; reflexivity.
 Qed.
 
-Lemma commit_index_spec d sz : Inv (lru d) -> 0 <= sz ->
+Lemma commit_index_spec d sz : Inv (lru d) ->
   (0 < sz -> snd (LRU.reserve sz (lru d)) = Ok tt) ->
   Inv (commit_index d sz) /\ Inv (reserved_index d sz) /\
   res (commit_index d sz) = res (lru d) /\ maxs (commit_index d sz) = maxs (lru d) /\
@@ -375,7 +375,7 @@ Lemma commit_index_spec d sz : Inv (lru d) -> 0 <= sz ->
   (if sz >? 0 then LRU.unreserve sz (reserved_index d sz) else (reserved_index d sz, Ok tt))
     = (commit_index d sz, Ok tt).
 Proof.
-  intros HI Hsz Hres. unfold commit_index, reserved_index. destruct (sz >? 0) eqn:G.
+  intros HI Hres. unfold commit_index, reserved_index. destruct (sz >? 0) eqn:G.
   - destruct (LRU.reserve sz (lru d)) as [l' r0] eqn:ER. cbn [fst snd] in *.
     rewrite Hres in ER by lia.
     destruct (reserve_then_unreserve sz (lru d) l' HI ltac:(lia) ER)
@@ -439,7 +439,7 @@ Proof.
     destruct r0 as [[]|e|s|s]; try contradiction.
     + right. split; [exact HG|]. split; [exact HS|]. split; [intros _; reflexivity|].
       assert (Hres : 0 < sz -> snd (LRU.reserve sz (lru d)) = Ok tt) by (rewrite ER; reflexivity).
-      destruct (commit_index_spec d sz HI ltac:(lia) Hres) as (HI1 & _ & _ & _ & _ & _ & HU).
+      destruct (commit_index_spec d sz HI Hres) as (HI1 & _ & _ & _ & _ & _ & HU).
       assert (HR : reserved_index d sz = l') by (unfold reserved_index; rewrite G5, ER; reflexivity).
       rewrite HR in *.
       apply (put_body_cases c (set_lru l' d) k hash sz st rnd sz (commit_index d sz)) in H;
@@ -488,7 +488,7 @@ Proof.
         [(_ & Hr & _)|(Hfresh & [(_ & Hr & _)|(EG & l2 & r2 & EA & [(_ & Hr & _)|(-> & _ & ->)])])])]]];
     try discriminate; try contradiction.
   destruct HG as [[Hsz0 _] _].
-  destruct (commit_index_spec d sz HI Hsz0 Hres) as (HI1 & _ & Hr1 & Hm1 & _).
+  destruct (commit_index_spec d sz HI Hres) as (HI1 & _ & Hr1 & Hm1 & _).
   pose proof (put_item_ok c k sz st rnd Hsz0 Hod) as Hit.
   destruct (present_after_add _ _ _ _ HI1 Hit EA) as [_ Hp].
   { rewrite Hr1, Hm1. exact Hfit. }
@@ -516,10 +516,10 @@ Proof.
     pose proof (reserve_inv sz (lru d) HI) as [HI' _].
     conj; try assumption; try reflexivity. intros k'. unfold peek. rewrite Ho. auto.
   - destruct HG as [[Hsz0 _] _].
-    destruct (commit_index_spec d sz HI Hsz0 Hres) as (HI1 & _ & Hr1 & _ & _ & (ev & Hev) & _).
+    destruct (commit_index_spec d sz HI Hres) as (HI1 & _ & Hr1 & _ & _ & (ev & Hev) & _).
     cbn [lru files]. conj; try assumption; try reflexivity. intros k'. apply (peek_none_suffix _ _ _ _ Hev).
   - destruct HG as [[Hsz0 _] _].
-    destruct (commit_index_spec d sz HI Hsz0 Hres) as (HI1 & _ & Hr1 & _ & _ & (ev & Hev) & _).
+    destruct (commit_index_spec d sz HI Hres) as (HI1 & _ & Hr1 & _ & _ & (ev & Hev) & _).
     pose proof (put_item_ok c k sz st rnd Hsz0 Hod) as Hit.
     destruct (add_spec _ _ _ _ _ HI1 Hit EA) as (HI2 & Hr2 & _ & _ & [(_ & Ho & _)|(Hx & _)]); [|discriminate].
     cbn [lru files]. conj; try assumption; try reflexivity; [congruence|].
@@ -560,7 +560,7 @@ Proof.
   - rewrite (Hres Hsz) in ER. discriminate.
   - rewrite (put_good_of c k sz st HU Hz) in EG. discriminate.
   - exfalso. destruct HG as [[Hsz0 _] _].
-    destruct (commit_index_spec d sz HI Hsz0 Hres) as (HI1 & _ & Hr1 & Hm1 & _).
+    destruct (commit_index_spec d sz HI Hres) as (HI1 & _ & Hr1 & Hm1 & _).
     pose proof (put_item_ok c k sz st rnd Hsz0 Hod) as Hit.
     assert (HA : snd (LRU.add (lookup_key k hash) (put_item c k sz st rnd) (commit_index d sz)) = Ok true).
     { apply add_ok; [exact HI1|exact Hit|rewrite Hm1; exact Hfit1|rewrite Hr1, Hm1; exact Hfit2]. }
@@ -585,7 +585,7 @@ Proof.
     apply (limit_admission sz (lru d) HI Hsz H1 H2). exact H3. }
   assert (H0 : 0 <= res (lru d)) by (destruct HI as ([] & _); assumption).
   destruct HG as [[Hsz0 Hmb] Hlen].
-  destruct (commit_index_spec d sz HI Hsz0 Hres) as (HI1 & _ & Hr1 & Hm1 & _).
+  destruct (commit_index_spec d sz HI Hres) as (HI1 & _ & Hr1 & Hm1 & _).
   pose proof (add_delta_le (lookup_key k hash) (put_item c k sz st rnd) _ HI1) as Hd. cbn [sizeOnDisk put_item] in Hd.
   apply put_ack_complete; try assumption; [repeat split; assumption|lia|lia].
 Qed.
@@ -728,3 +728,28 @@ Proof.
     try discriminate; try contradiction.
   reflexivity.
 Qed.
+
+(* [put_ack_present] with the facts about the file spelled out *)
+Corollary put_ack_present_file c d k hash sz st rnd d' :
+  Inv (lru d) -> 0 <= st_ondisk st ->
+  exec c d (RPut k hash sz st rnd) = (d', Some PutOk) ->
+  ~ empty_shortcut k hash sz ->
+  res (lru d) + roundUp4k (put_od c k sz st) <= maxs (lru d) ->
+  peek (lookup_key k hash) (lru d') = Some (mkItem sz (put_od c k sz st) rnd (put_legacy c k)) /\
+  (exists f, find_file (put_path c k hash sz rnd) (files d') = Some f /\
+             f_complete f = true /\ f_cid f = st_cid st /\ f_len f = put_od c k sz st /\ f_logical f = sz) /\
+  find_file (put_path c k hash sz rnd) (files d) = None /\
+  Inv (lru d') /\ res (lru d') = res (lru d).
+Proof.
+  intros HI Hod H HS Hfit. destruct (put_ack_present _ _ _ _ _ _ _ _ HI Hod H HS Hfit) as (H1 & H2 & _ & H4 & H5 & H6).
+  split; [exact H1|]. split; [|conj; assumption].
+  exists (put_file_done c k hash sz st rnd). conj; try reflexivity. exact H2.
+Qed.
+
+(* the path the entry's file is looked up under is the path the upload wrote *)
+Lemma is_cas_key_lookup_put k hash : is_cas_key (lookup_key k hash) = kind_eqb k CAS.
+Proof. destruct k; destruct hash; reflexivity. Qed.
+
+Lemma path_of_put_item c k hash sz st rnd :
+  path_of (lookup_key k hash) (put_item c k sz st rnd) = put_path c k hash sz rnd.
+Proof. unfold path_of, put_path, put_item. cbn [legacy size random]. rewrite is_cas_key_lookup_put. reflexivity. Qed.
